@@ -525,7 +525,7 @@ theorem expendable_fields (t : Taints) (h : t.expendable = true) :
   cases t with
   | mk m e s um ul uk =>
     cases m <;> cases e <;> cases s <;> cases um <;> cases ul <;> cases uk <;>
-      simp [Taints.expendable, Taints.dirty] at h ⊢
+      simp [Taints.expendable, Taints.dirty, Taints.has, Consts.C12.dirtyTaints, Consts.C12.notExpendableTaints] at h ⊢
 
 /-- **an expendable git checkout holds no user work**: no dirty or untracked path, and every
 commit held by a local branch or the detached HEAD is an upstream commit -/
@@ -534,11 +534,11 @@ theorem expendable_no_work (hU : UpClosed D U) (s : GitSpec) (extra : Bool) (r :
     r.dirty = [] ∧ r.untracked = [] ∧ ∀ c, LocalHeld D r c → ¬ U c := by
   unfold status at h
   cases hh : r.headCommit with
-  | none => simp [hh, Taints.expendable, Taints.dirty] at h
+  | none => simp [hh, Taints.expendable, Taints.dirty, Taints.has, Consts.C12.dirtyTaints] at h
   | some hc =>
     simp only [hh] at h
     by_cases herr : (refState D s r hc).err = true
-    · simp [herr, Taints.expendable, Taints.dirty] at h
+    · simp [herr, Taints.expendable, Taints.dirty, Taints.has, Consts.C12.dirtyTaints] at h
     · have herr' : (refState D s r hc).err = false := by simpa using herr
       simp only [herr', Bool.false_eq_true, if_false] at h
       obtain ⟨hmod, _, _, hum, hcov, _⟩ := expendable_fields _ h
